@@ -167,8 +167,11 @@ def chain(rec, ops):
             evs.append({"ev": "Slice", "pre": pre, "a": a, "b": b, "res": r, "exc": exc})
         elif kind == "ADD":
             side, what = op[1], op[2]
+            from Bio.Seq import MutableSeq
             other = {"str": "ACGT", "Seq": Seq("ACGT"), "SeqRecord": SeqRecord(Seq("ACGT"), id="o"),
-                     "CircularRecord": CircularRecord(Seq("ACGT"), id="o"), "slice": cur[0:2]}[what]
+                     "CircularRecord": CircularRecord(Seq("ACGT"), id="o"), "slice": cur[0:2] if len(cur.seq) else SeqRecord(Seq(""), id="e"),
+                     "empty-str": "", "empty-SeqRecord": SeqRecord(Seq(""), id="e"), "MutableSeq": MutableSeq("ACGT"), "int": 3, "None": None,
+                     "list": ["A", "C"], "bytes": b"ACGT", "self": cur}[what]
             res, exc = _exc(lambda: (cur + other) if side == "right" else (other + cur))
             evs.append({"ev": "Add", "pre": pre, "side": side, "other": what, "exc": exc or "returned:" + type(res).__name__})
         if reset and len(evs) > n_before:
